@@ -13,7 +13,7 @@ RULE = ("case = history over three pens of set_bool/set_int/set_colour/set_colou
         "nondefault for every attribute code, is_nonempty, is_nondefault), at the end all three pens, equiv for all 9 ordered "
         "pairs (the oracle checks reflexivity, symmetry, transitivity over all triples) and equiv_attr for every pair and "
         "attribute. Exhaustive part: every setter x every attribute code x every value in -300..600 (bit-field one bit too "
-        "narrow or wide shows), the in-type ones again through copy/clone; every description string of length <= 3 over a "
+        "narrow shows), the in-type ones again through copy/clone, every attribute x (source value | absent) x (destination value | absent) x overwrite flag; every description string of length <= 3 over a "
         "16-letter alphabet, every RGB part of length <= 4 over an 11-letter alphabet, the documented grammar (13 names x "
         "hi- x blanks x RGB part, decimals -2..300) and every proper prefix of every name. Random part: histories of 1..14 "
         "operations drawn from a small pool of attributes/values (so that equal pens occur), descriptions mutated from "
@@ -118,7 +118,7 @@ def gen(tier, seed, info):
             m += 1
             yield desc_case(s, a)
     info["exhaustive"] = True
-    info["exhaustive_scope"] = ("setters sb/si/sc x attribute codes 0..11 x values -300..600 (+ in-type values through copy/copy_attr/clone): %d cases; "
+    info["exhaustive_scope"] = ("setters sb/si/sc x attribute codes 0..11 x values -300..600 (+ in-type values through copy/copy_attr/clone; + every attribute x source value|absent x destination value|absent x overwrite flag through clone and copy both ways): %d cases; "
                                 "descriptions: all strings of length <=3 over '%s', '7#'+all strings of length <=4 over '%s', "
                                 "all prefixes of the 13 names x hi- x blanks x 9 RGB tails, decimals -2..300 x hi- x 6 tails, 52 special strings x 4 attributes: %d cases"
                                 % (n, alpha, ralpha, m))
